@@ -490,3 +490,96 @@ theorem range_intersect_good {a b r : Range} (ha : RangeGood a) (hb : RangeGood 
     exact intersect_good (ha.2 s hs) (hb.2 o ho) hi
 
 end Semver
+
+namespace Semver
+open Pred Bound Spec
+
+theorem diffStep_cons (piece : BoundSet) (rest : List BoundSet) (righty : BoundSet) :
+    diffStep (piece :: rest) righty = diffStepF righty piece (diffStep rest righty) := rfl
+
+theorem diffStep_good {rem : List BoundSet} {righty : BoundSet} (hr : ∀ s ∈ rem, Good s) (hy : Good righty)
+    {l : List BoundSet} (h : diffStep rem righty = some l) : ∀ x ∈ l, Good x := by
+  induction rem generalizing l with
+  | nil => simp [diffStep] at h; subst h; simp
+  | cons piece rest ih =>
+    rw [diffStep_cons] at h
+    cases hrest : diffStep rest righty with
+    | none => rw [hrest] at h; simp [diffStepF] at h
+    | some l' =>
+      rw [hrest] at h
+      unfold diffStepF at h
+      have ih' := ih (fun s hs => hr s (by simp [hs])) hrest
+      cases hd : piece.difference righty with
+      | panic => rw [hd] at h; simp at h
+      | none => rw [hd] at h; simp at h; subst h; exact ih'
+      | some pieces =>
+        rw [hd] at h
+        simp at h
+        subst h
+        intro x hx
+        rw [List.mem_append] at hx
+        rcases hx with hx | hx
+        · exact difference_good (hr piece (by simp)) hy hd x hx
+        · exact ih' x hx
+
+theorem diffFold_good (other : Range) (ho : ∀ s ∈ other, Good s) (start : List BoundSet)
+    (hs : ∀ s ∈ start, Good s) {l : List BoundSet}
+    (h : other.foldl (fun rem righty => rem.bind (diffStep · righty)) (some start) = some l) :
+    ∀ x ∈ l, Good x := by
+  induction other generalizing start with
+  | nil => simp at h; subst h; exact hs
+  | cons y rest ih =>
+    simp only [List.foldl_cons, Option.bind_some] at h
+    cases h1 : diffStep start y with
+    | none =>
+      rw [h1] at h
+      have : ∀ l : Range, l.foldl (fun (rem : Option (List BoundSet)) righty => rem.bind (diffStep · righty)) none = none := by
+        intro l; induction l <;> simp_all
+      rw [this] at h; cases h
+    | some l1 =>
+      rw [h1] at h
+      exact ih (fun s hs' => ho s (by simp [hs'])) l1 (diffStep_good hs (ho y (by simp)) h1) h
+
+theorem diffPieces_cons (lefty : BoundSet) (rest : Range) (b : Range) :
+    diffPieces (lefty :: rest) b = diffPiecesF b lefty (diffPieces rest b) := rfl
+
+theorem diffPieces_good (a b : Range) (ha : ∀ s ∈ a, Good s) (hb : ∀ s ∈ b, Good s) {p : List BoundSet}
+    (h : diffPieces a b = some p) : ∀ x ∈ p, Good x := by
+  induction a generalizing p with
+  | nil => simp [diffPieces] at h; subst h; simp
+  | cons lefty rest ih =>
+    rw [diffPieces_cons] at h
+    unfold diffPiecesF at h
+    cases hl : diffAlt lefty b with
+    | none => rw [hl] at h; simp at h
+    | some l =>
+      cases hrest : diffPieces rest b with
+      | none => rw [hl, hrest] at h; simp at h
+      | some p' =>
+        rw [hl, hrest] at h
+        simp at h
+        subst h
+        intro x hx
+        rw [List.mem_append] at hx
+        rcases hx with hx | hx
+        · unfold diffAlt at hl
+          have hlg : Good lefty := ha lefty (by simp)
+          exact diffFold_good b hb [lefty] (by intro t ht; simp at ht; rw [ht]; exact hlg) hl x hx
+        · exact ih (fun s hs => ha s (by simp [hs])) hrest x hx
+
+/-- … and every result of `difference` -/
+theorem range_difference_good {a b r : Range} (ha : RangeGood a) (hb : RangeGood b)
+    (h : Range.difference a b = some (some r)) : RangeGood r := by
+  unfold Range.difference at h
+  cases hp : diffPieces a b with
+  | none => rw [hp] at h; simp at h
+  | some p =>
+    rw [hp] at h
+    simp only [Option.map_some, Option.some.injEq] at h
+    split at h
+    · cases h
+    · rename_i hne
+      cases h
+      exact ⟨by intro h0; simp [h0] at hne, diffPieces_good a b ha.2 hb.2 hp⟩
+
+end Semver
